@@ -29,6 +29,17 @@ impl Payload for Tok {
     fn valid(&self) -> bool { self.chk == chk_of(self.id) }
 }
 
+/// 24 bytes (not a power of two), no destructor
+#[derive(Debug)]
+pub struct Tok24 { pub id: u64, pub chk: u64, pub pad: u64 }
+impl Default for Tok24 { fn default() -> Self { Tok24 { id: 0, chk: chk_of(0), pad: 0 } } }
+impl Payload for Tok24 {
+    const DROPPY: bool = false;
+    fn make(id: u64) -> Self { Tok24 { id, chk: chk_of(id), pad: !id } }
+    fn id(&self) -> u64 { self.id }
+    fn valid(&self) -> bool { self.chk == chk_of(self.id) && self.pad == !self.id }
+}
+
 #[derive(Debug)]
 pub struct DTok { pub id: u64, pub chk: u64 }
 impl Default for DTok { fn default() -> Self { crate::sched::point_in_payload_code(); DTok { id: 0, chk: chk_of(0) } } }
